@@ -457,6 +457,10 @@ def obligations(tier, seed):
                                  "asking again for the same subscription builds nothing", bounds="any pairwise-different u64 request ids, arbitrary subscription id",
                             keydetail="unsubscribe-once", **common))
     out += array_obligations(core, (1, 2) if tier == "quick" else (1, 2, 3))
+    # a subscribe answered with a subscription id that is already in use must not take over the earlier subscription's notifications: the reverse index still
+    # names the earlier request (shared with C03: the routing step from a table with an active subscription and a pending subscribe)
+    from . import C03 as _c03
+    out += [r for r in _c03.route_obligations(core, [("pending_sub", "active_sub")]) if r.get("name", "").endswith(":index-invariant") or r.get("status") in ("unsupported", "vacuous")]
     seen = set()
     for r in out:
         if r.get("status") == "violated" and r.get("key"):
